@@ -5,5 +5,7 @@ p = pathlib.Path('/verif/DESIGN.md')
 s = p.read_text()
 table = subprocess.run(['/venv/bin/python', '/verif/tools/mkmutants_md.py'], capture_output=True, text=True, check=True).stdout
 s = re.sub(r'<!-- MUTANTS-BEGIN -->.*?<!-- MUTANTS-END -->', lambda m: '<!-- MUTANTS-BEGIN -->\n' + table + '<!-- MUTANTS-END -->', s, flags=re.S)
+counts = subprocess.run(['/venv/bin/python', '/verif/tools/mkcounts_md.py'], capture_output=True, text=True, check=True).stdout
+s = re.sub(r'<!-- COUNTS-BEGIN -->.*?<!-- COUNTS-END -->', lambda m: '<!-- COUNTS-BEGIN -->\n' + counts + '<!-- COUNTS-END -->', s, flags=re.S)
 p.write_text(s)
 print('refreshed; rows:', table.count('\n') - 2)
